@@ -81,7 +81,8 @@ theorem run_offered_eq_stage (env : Env) (ds : List Nat) (hn : ds.Nodup) (p : Bl
   intro w' d hd
   have hw0 : WInv ({ anyAdded := true, dests := ds } : World) := ⟨by simp, by simp⟩
   have e : w' = (execB env none ({ anyAdded := true, dests := ds } : World) p).1 := by
-    simp only [w', execB, execS, World.addDests]
+    have hd : hasDup ds = false := (hasDup_eq_false_iff ds).mpr hn
+    simp only [w', execB, execS, World.addDests, hd]
     rfl
   have g := (execB_lift (prim env) none ({ anyAdded := true, dests := ds } : World) p (Or.inl hp) hw0).1
   rw [e]
